@@ -219,7 +219,8 @@ def _post_exiting(engine, st, ctx, out):
     sets = [i for i, e in enumerate(st.trace) if e.kind in ("event-set", "call")]
     return [("the exit hook does not raise", "EX", not isinstance(out, Raise), ["C12", "C18"]),
             ("the shutdown flag is set BEFORE any worker is woken (a woken worker must see it and exit, not go back to sleep)", "PC",
-             z3.BoolVal(len(wr) == 1 and (not loops or wr[0] < min(loops)) and all(wr[0] < s for s in sets)), ["C12", "C03", "C11"])]
+             z3.And(z3.BoolVal(len(wr) == 1 and (not loops or wr[0] < min(loops)) and all(wr[0] < s for s in sets)),
+                    st.trace[wr[0]].args[0] == Val.boolv(z3.BoolVal(True)) if wr else False), ["C12", "C03", "C11"])]
 
 
 def _exit_loop_spec():
@@ -454,6 +455,7 @@ def _setup_get_event(engine, st):
     h = sym_inst(engine, st, "ShutdownAwareEventHandler", "handler")
     hid = Val.id(h.t)
     lst = engine.typed(st, st.get("events", hid), ("list", "any"))
+    st.assume(Val.is_boolv(st.get("atexit_registered", hid)))
     return [h], {}, {"h": h, "hid": hid, "lid": Val.id(lst.t), "n0": st.get("$len", Val.id(lst.t)), "at0": st.get("$at", Val.id(lst.t)),
                      "reg0": st.get("atexit_registered", hid)}
 
@@ -472,12 +474,28 @@ def _post_get_event(engine, st, ctx, out):
                z3.And(z3.BoolVal(ok and len(wrefs) == 1), cls_of(Val.id(w)) == engine.tag("weakref") if ok else False,
                       st.get("$referent", Val.id(w)) == out.t if ok else False, z3.Not(st.get("$flag", Val.id(out.t))) if ok else False,
                       apps[0].recv == Val.id(st.get("events", hid)) if ok else False, z3.BoolVal(ok and any(h_[3] == "lock" for h_ in apps[0].held))), ["C12"]))
-    cl.append(("the interpreter-exit hook is registered (once: the flag is set with it)", "PC", Val.b(st.get("atexit_registered", hid)), ["C12", "C11"]))
+    ar = [e for e in st.trace if e.kind == "atexit-register"]
+    from pyvc.vals import Bound, Func
+    okreg = all(isinstance(engine.resolve(st, e.extra["cb"]), Bound) and isinstance(engine.resolve(st, e.extra["cb"]).func, Func)
+                and engine.resolve(st, e.extra["cb"]).func.qualname.endswith(".on_exiting") for e in ar)
+    cl.append(("the interpreter-exit hook (this handler's on_exiting) is registered with atexit exactly when it was not yet, and remembered as registered", "PC",
+               z3.And(Val.b(st.get("atexit_registered", hid)), z3.If(Val.b(st.ghost.get("reg@acquire", ctx["reg0"])), z3.BoolVal(len(ar) == 0), z3.BoolVal(len(ar) == 1 and okreg))), ["C12", "C11"]))
     return cl
 
 
+def _cfg_get_event():
+    cfg = _cfg_event()
+
+    def at_acquire(engine, st, owner):
+        if "reg@acquire" not in st.ghost:
+            st.ghost["reg@acquire"] = st.get("atexit_registered", Val.id(owner.t))      # the flag as this call found it under the lock
+        return [("atexit_registered is a bool", Val.is_boolv(st.get("atexit_registered", Val.id(owner.t))))]
+    cfg.region_inv[("ShutdownAwareEventHandler", "lock")] = at_acquire
+    return cfg
+
+
 UNITS.append(Unit("ShutdownAwareEventHandler.get_event", "event.ShutdownAwareEventHandler.get_event", ["C12", "C11"], _setup_get_event, _post_get_event,
-                  cfg=lambda: _cfg_event(), self_cls="ShutdownAwareEventHandler"))
+                  cfg=_cfg_get_event, self_cls="ShutdownAwareEventHandler"))
 
 
 # ---- g. constructors of the executors without a worker thread (C11 C19 C20) ---------------------------------------------------
@@ -573,6 +591,12 @@ def _post_aio(engine, st, ctx, out):
         if not isinstance(out, Raise):
             cl.append(("what is returned is asyncio's wrapper of exactly the delegate's future", "PC",
                        z3.And(z3.BoolVal(len(wraps) == 1), wraps[0].args[0] == ev.ret if wraps else False), ["C01"]))
+            gl = [e for e in st.trace if e.kind == "get_event_loop"]
+            lp = wraps[0].kwargs.get("loop") if wraps else None
+            truthy = z3.BoolVal(not any(a == "not loop" and b for a, b in st.decisions))      # the code's own (single) truth test of `loop`
+            cl.append(("the wrapper lives on the loop the caller named, or on the current event loop when none was named", "PC",
+                       z3.If(truthy, z3.And(z3.BoolVal(not gl), lp == ctx["loop"].t if lp is not None else False),
+                             z3.And(z3.BoolVal(len(gl) == 1), lp == gl[0].ret if (lp is not None and gl) else False)), ["C01"]))
     return cl
 
 
